@@ -160,8 +160,15 @@ impl GrammarBuilder {
         grammar_terminals: Vec<rustemo_actions::TerminalRule>,
     ) -> Result<()> {
         for mut terminal in grammar_terminals {
-            let term_idx = self.get_term_idx();
             self.check_identifier(&terminal.name)?;
+            if self.terminals.contains_key(terminal.name.as_ref()) {
+                err!(
+                    format!("Terminal '{}' is defined multiple times.", terminal.name),
+                    Some(self.file.clone()),
+                    terminal.name.span
+                )?
+            }
+            let term_idx = self.get_term_idx();
             self.terminals.insert(
                 terminal.name.as_ref().to_string(),
                 Terminal {
